@@ -211,12 +211,11 @@ func collectEntryNodes(node Node, m map[reflect.Type]struct{}) {
 		for _, el := range node.Nodes {
 			collectEntryNodes(el, m)
 		}
-	case Not:
-		collectEntryNodes(node.Node, m)
 	case Binding:
 		collectEntryNodes(node.Node, m)
-	case Nil, nil:
-		// this branch is reached via bindings
+	case Not, Nil, nil:
+		// Nil and nil are reached via bindings. The negation of a pattern matches
+		// (at least) every node that is of a different kind than its operand.
 		for _, T := range allTypes {
 			m[T] = struct{}{}
 		}
